@@ -2188,8 +2188,14 @@ class PyCdlib:
                         if self.eltorito_boot_catalog is not None and abs_file_data_extent == self.eltorito_boot_catalog.extent_location():
                             self.eltorito_boot_catalog.add_dirrecord(next_entry)
                         else:
-                            if abs_file_data_extent > 0 and abs_file_data_extent in extent_to_inode:
-                                ino = extent_to_inode[abs_file_data_extent]
+                            # Zero-length files own no data extent; two UDF
+                            # names are the same empty file only if they share
+                            # a File Entry.
+                            inode_key = abs_file_data_extent
+                            if abs_file_data_extent == 0:
+                                inode_key = -abs_file_entry_extent
+                            if inode_key in extent_to_inode:
+                                ino = extent_to_inode[inode_key]
                                 if all(isinstance(link, eltorito.EltoritoEntry) for link, pvd_unused in ino.linked_records):
                                     ino.data_length = next_entry.get_data_length()
                             else:
@@ -2197,8 +2203,7 @@ class PyCdlib:
                                 ino.parse(abs_file_data_extent,
                                           next_entry.get_data_length(),
                                           self._cdfp, self.logical_block_size)
-                                if abs_file_data_extent > 0:
-                                    extent_to_inode[abs_file_data_extent] = ino
+                                extent_to_inode[inode_key] = ino
                                 self.inodes.append(ino)
 
                             ino.linked_records.append((next_entry, False))
